@@ -594,4 +594,630 @@ theorem createDoWhile_fo (cond : BoolExpr) (body : List Stmt) (c : Chunk) (i : N
       simp only; omega
     · exact .inl rfl
 
+/-! ### `switch` -/
+
+theorem switchBodies_fo (ret : Option Nat) (ex : List Nat) : ∀ (cases : List SwitchCase) (s : WS),
+    (∀ r, ret = some r → r ≤ s.counter) →
+    ∃ nw, FO s (switchBodies ret cases s).1 nw ex ∧
+      (∀ d, some d ∈ (switchBodies ret cases s).2 →
+        Fresh s.counter (switchBodies ret cases s).1.counter d) ∧
+      (∀ q ∈ nw, q.statements ∈ cases.map (·.2.2) ∧ q.branch = .none) := by
+  intro cases
+  induction cases with
+  | nil =>
+    intro s _
+    exact ⟨[], FO.refl _ _, by simp [switchBodies], by simp⟩
+  | cons c r ih =>
+    intro s hret
+    obtain ⟨v, d, body⟩ := c
+    by_cases hb : body.length > 0
+    · rw [switchBodies_cons_pos ret v d body r s hb]
+      obtain ⟨nw, f, hids, hn⟩ := ih (pushNew s ret body)
+        (fun x hx => by have := hret x hx; simp only [pushNew]; omega)
+      have l := f.built.counter_le
+      refine ⟨_ :: nw, (FO.pushCode s ret body ex hret).trans f, ?_, ?_⟩
+      · intro x hx
+        simp only [List.mem_cons, Option.some.injEq] at hx
+        rcases hx with rfl | hx
+        · exact ⟨by simp, by simp only [pushNew] at l ⊢; omega⟩
+        · exact (hids x hx).mono (by simp [pushNew]) (Nat.le_refl _)
+      · intro q hq
+        simp only [List.mem_cons] at hq
+        rcases hq with rfl | hq
+        · exact ⟨by simp, rfl⟩
+        · exact ⟨by simp only [List.map_cons, List.mem_cons]; exact .inr (hn q hq).1, (hn q hq).2⟩
+    · rw [switchBodies_cons_neg ret v d body r s hb]
+      obtain ⟨nw, f, hids, hn⟩ := ih s hret
+      refine ⟨nw, f, ?_, ?_⟩
+      · intro x hx
+        simp only [List.mem_cons] at hx
+        rcases hx with hx | hx
+        · cases hx
+        · exact hids x hx
+      · intro q hq
+        exact ⟨by simp only [List.map_cons, List.mem_cons]; exact .inr (hn q hq).1, (hn q hq).2⟩
+
+theorem emptyStep_fo (post : Option Nat) (need : Bool) (s : WS) (ex : List Nat)
+    (hret : ∀ r, post = some r → r ≤ s.counter) :
+    ∃ ne, FO s (emptyStep post need s).1 ne ex ∧ (∀ q ∈ ne, q.statements = [] ∧ q.branch = .none) := by
+  unfold emptyStep
+  cases need with
+  | false => exact ⟨[], FO.refl _ _, by simp⟩
+  | true =>
+    refine ⟨_, FO.pushCode s post [] ex hret, ?_⟩
+    intro q hq
+    simp only [List.mem_singleton] at hq; subst hq
+    exact ⟨rfl, rfl⟩
+
+theorem createSwitch_fo (operand : Tok) (cases : List SwitchCase) (c : Chunk) (i : Nat) (s s' : WS)
+    (br : Branch) (ret : Option Nat) (swId : Nat)
+    (h : createSwitch operand cases c i s = (s', br, ret, swId))
+    (hret : ∀ r, c.returnID = some r → r ≤ s.counter) :
+    br = .jump swId ∧ Fresh s.counter s'.counter swId ∧ ∃ nw, FO s s' nw [swId] ∧
+      ∀ q ∈ nw, q.statements = [] ∨ q.statements = c.statements.drop (i + 1) ∨
+        (q.statements ∈ cases.map (·.2.2) ∧ (∀ r, ret = some r → r < q.id) ∧ swId ≤ q.id) := by
+  rw [createSwitch_eq] at h
+  obtain ⟨nsp, fsp, hpost, hsp⟩ := splitChunkForBranch_fo c i s [(splitChunkForBranch c i s).1.counter + 1] hret
+  generalize splitChunkForBranch c i s = sp at h fsp hpost
+  obtain ⟨s0, post⟩ := sp
+  simp only at h fsp hpost
+  have l0 := fsp.built.counter_le
+  have fsw : FO s0 (pushEmpty s0 post) [{ id := s0.counter + 1, returnID := post }] [s0.counter + 1] :=
+    FO.pushCode s0 post [] _ hpost
+  obtain ⟨nb, fb, hids, hnb⟩ := switchBodies_fo post [s0.counter + 1] cases (pushEmpty s0 post)
+    (fun r hr => by have := hpost r hr; simp only [pushEmpty]; omega)
+  generalize switchBodies post cases (pushEmpty s0 post) = sb at h fb hids
+  obtain ⟨s1, ids0⟩ := sb
+  simp only at h fb hids
+  have l1 : s0.counter + 1 ≤ s1.counter := fb.built.counter_le
+  have hpe : (pushEmpty s0 post).counter = s0.counter + 1 := rfl
+  rw [hpe] at hids
+  -- ids of the chunks
+  have idsp : ∀ q ∈ nsp, q.id ≤ s0.counter := fun q hq => (fsp.built.ids q hq).2
+  have idnb : ∀ q ∈ nb, s0.counter + 1 < q.id := fun q hq => by
+    have := (fb.built.ids q hq).1; rw [hpe] at this; exact this
+  -- statements of the chunks other than the switch chunk
+  have stm : ∀ (s2 : WS) (ne : List Chunk) (swc : Chunk), swc.statements = [] →
+      (∀ q ∈ ne, q.statements = [] ∧ q.branch = .none) →
+      ∀ q ∈ nsp ++ (swc :: (nb ++ ne)), q.statements = [] ∨ q.statements = c.statements.drop (i + 1) ∨
+        (q.statements ∈ cases.map (·.2.2) ∧ (∀ r, post = some r → r < q.id) ∧ s0.counter + 1 ≤ q.id) := by
+    intro s2 ne swc hswc hne q hq
+    simp only [List.mem_append, List.mem_cons] at hq
+    rcases hq with hq | rfl | hq | hq
+    · exact .inr (.inl (hsp q hq).1)
+    · exact .inl hswc
+    · refine .inr (.inr ⟨(hnb q hq).1, ?_, by have := idnb q hq; omega⟩)
+      intro r hr
+      have := hpost r hr
+      have := idnb q hq
+      omega
+    · exact .inl (hne q hq).1
+  unfold switchTail at h
+  by_cases hall : ids0.all (·.isNone) = true
+  · rw [if_pos hall] at h
+    simp only [Prod.mk.injEq] at h
+    obtain ⟨rfl, rfl, rfl, rfl⟩ := h
+    refine ⟨rfl, ⟨by omega, by omega⟩, _, fsp.trans (fsw.trans fb), ?_⟩
+    have := stm s1 [] { id := s0.counter + 1, returnID := post } rfl (by simp)
+    simpa using this
+  · rw [if_neg hall] at h
+    simp only [Prod.mk.injEq] at h
+    obtain ⟨hs', rfl, rfl, rfl⟩ := h
+    obtain ⟨ne, fe, hne⟩ := emptyStep_fo post (switchNeedsEmpty cases (propagateBack ids0)) s1 [s0.counter + 1]
+      (fun r hr => by have := hpost r hr; omega)
+    generalize emptyStep post (switchNeedsEmpty cases (propagateBack ids0)) s1 = es at hs' fe
+    obtain ⟨s2, eid⟩ := es
+    simp only at hs' fe
+    have l2 : s1.counter ≤ s2.counter := fe.built.counter_le
+    have hc' : s'.counter = s2.counter := by rw [← hs']
+    obtain ⟨bcs, dflt, dest, hbr, hdflt, hdest, hdn, hbcs⟩ :=
+      switchBranchOf_facts operand cases (propagateBack ids0) eid post
+    rw [hbr] at hs'
+    have b2 : FO s s2 (nsp ++ ({ id := s0.counter + 1, returnID := post } :: (nb ++ ne))) [s0.counter + 1] := by
+      have := fsp.trans ((fsw.trans fb).trans fe)
+      simpa [List.append_assoc] using this
+    have hq0 : s0.queue = s.queue ++ nsp := fsp.built.queue_eq
+    have hq' : s'.queue = s.queue ++ (nsp ++ (({ id := s0.counter + 1, returnID := post, branch := .switch_ operand bcs dflt dest } : Chunk) :: (nb ++ ne))) := by
+      rw [← hs']
+      simp only
+      rw [b2.built.queue_eq, hq0, ← List.append_assoc, modify_append_cons, List.append_assoc]
+    have hfresh_id : ∀ d, some d ∈ propagateBack ids0 → s0.counter + 1 < d ∧ d ≤ s'.counter := by
+      intro d hd
+      have := hids d (propagateBack_mem _ _ hd)
+      exact ⟨this.1, by have := this.2; omega⟩
+    -- the other chunks have no branch
+    have hnone : ∀ q ∈ nsp ++ (nb ++ ne), q.branch = .none := by
+      intro q hq
+      simp only [List.mem_append] at hq
+      rcases hq with hq | hq | hq
+      · exact (hsp q hq).2
+      · exact (hnb q hq).2
+      · exact (hne q hq).2
+    have hjn : ∀ q ∈ nsp ++ (nb ++ ne), jt q = none := by
+      intro q hq; unfold jt; rw [hnone q hq]
+    have hmem : ∀ q ∈ nsp ++ (nb ++ ne), q ∈ nsp ++ ({ id := s0.counter + 1, returnID := post } :: (nb ++ ne)) := by
+      intro q hq
+      simp only [List.mem_append, List.mem_cons] at hq ⊢
+      rcases hq with hq | hq | hq
+      · exact .inl hq
+      · exact .inr (.inr (.inl hq))
+      · exact .inr (.inr (.inr hq))
+    have hsplit : ∀ q ∈ nsp ++ (({ id := s0.counter + 1, returnID := post, branch := .switch_ operand bcs dflt dest } : Chunk) :: (nb ++ ne)),
+        q = ({ id := s0.counter + 1, returnID := post, branch := .switch_ operand bcs dflt dest } : Chunk) ∨ q ∈ nsp ++ (nb ++ ne) := by
+      intro q hq
+      simp only [List.mem_append, List.mem_cons] at hq ⊢
+      rcases hq with hq | rfl | hq | hq
+      · exact .inr (.inl hq)
+      · exact .inl rfl
+      · exact .inr (.inr (.inl hq))
+      · exact .inr (.inr (.inr hq))
+    have hpostlt : ∀ r, post = some r → r < s0.counter + 1 := fun r hr => by have := hpost r hr; omega
+    refine ⟨rfl, ⟨by omega, by omega⟩,
+      nsp ++ (({ id := s0.counter + 1, returnID := post, branch := .switch_ operand bcs dflt dest } : Chunk) :: (nb ++ ne)),
+      ⟨?_, ?_, ?_, ?_, ?_⟩, ?_⟩
+    · -- Built
+      refine ⟨by rw [hc']; exact b2.built.counter_le, hq', by rw [← hs']; exact b2.built.final_eq,
+        by rw [← hs']; exact b2.built.brk_eq, by rw [← hs']; exact b2.built.cont_eq, ?_⟩
+      intro q hq
+      rw [hc']
+      rcases hsplit q hq with rfl | hq
+      · exact b2.built.ids { id := s0.counter + 1, returnID := post } (by simp)
+      · exact b2.built.ids q (hmem q hq)
+    · intro q hq r hr
+      rcases hsplit q hq with rfl | hq
+      · exact hpostlt r hr
+      · exact b2.ret q (hmem q hq) r hr
+    · intro q hq hj d hd
+      rcases hsplit q hq with rfl | hq
+      · simp only [jt] at hj
+        cases dflt with
+        | some x => simp at hj
+        | none =>
+          simp only [tailId] at hd
+          rw [hdn rfl] at hd
+          exact hpostlt d hd
+      · exact b2.back q (hmem q hq) hj d hd
+    · intro q hq d hd
+      rcases hsplit q hq with rfl | hq
+      · simp only [jt] at hd
+        cases dflt with
+        | none => simp at hd
+        | some x =>
+          simp only [Option.some.injEq] at hd; subst hd
+          have := hfresh_id x (hdflt x rfl)
+          exact ⟨⟨by omega, this.2⟩, by simp only [List.mem_singleton]; omega⟩
+      · rw [hjn q hq] at hd; cases hd
+    · intro a ha b hb d hda hdb
+      rcases hsplit a ha with rfl | ha
+      · rcases hsplit b hb with rfl | hb
+        · rfl
+        · rw [hjn b hb] at hdb; cases hdb
+      · rw [hjn a ha] at hda; cases hda
+    · exact stm s2 ne _ rfl hne
+
+/-! ### one worklist step -/
+
+/-- every scope id free in the chunk is registered, with a target allocated before the chunk -/
+def ScopeB (st : WS) (p : Chunk) : Prop :=
+  ∃ be ce, WFL p.statements be ce ∧
+    (∀ s ∈ be, ∃ v, st.brk.lookup s = some v ∧ ∀ r, v = some r → r < p.id) ∧
+    (∀ s ∈ ce, ∃ d, st.cont.lookup s = some d ∧ d ≤ p.id)
+
+/-- the scope entries `x` registers have targets allocated before the new chunk `q` -/
+def SBound (st1 : WS) (x : Stmt) (q : Chunk) : Prop :=
+  (∀ s ∈ scopeB x, ∃ v, st1.brk.lookup s = some v ∧ ∀ r, v = some r → r < q.id) ∧
+  (∀ s ∈ scopeC x, ∃ d, st1.cont.lookup s = some d ∧ d ≤ q.id)
+
+structure StepF (p : Chunk) (st0 st1 : WS) (nw : List Chunk) (ch : Chunk) : Prop where
+  ch_id : ch.id = p.id
+  counter_le : st0.counter ≤ st1.counter
+  queue_eq : st1.queue = st0.queue ++ nw
+  final_eq : st1.final = ch :: st0.final.filter (·.id != p.id)
+  nw_ids : ∀ q ∈ nw, Fresh st0.counter st1.counter q.id
+  nw_ret : ∀ q ∈ nw, ∀ r, q.returnID = some r → r < q.id
+  nw_back : ∀ q ∈ nw, jt q = none → ∀ d, tailId q = some d → d < q.id
+  ch_back : jt ch = none → ∀ d, tailId ch = some d → d ≤ ch.id
+  jtf : ∀ q ∈ ch :: nw, ∀ d, jt q = some d → (q = ch ∧ ch = p) ∨ Fresh st0.counter st1.counter d
+  jti : ∀ a ∈ ch :: nw, ∀ b ∈ ch :: nw, ∀ d, jt a = some d → jt b = some d → a.id = b.id
+  stm : ∀ q ∈ nw, q.statements = [] ∨ ∃ pre x r, p.statements = pre ++ x :: r ∧
+    (q.statements = r ∨ (q.statements ∈ subBlocks x ∧ SBound st1 x q))
+
+/-- a step that queues nothing and gives the chunk no jump-like tail (or leaves it alone) -/
+theorem StepF.simple (p : Chunk) (st0 : WS) (ch : Chunk) (hid : ch.id = p.id)
+    (hb : jt ch = none → ∀ d, tailId ch = some d → d ≤ ch.id) (hj : ch = p ∨ jt ch = none) :
+    StepF p st0 (st0.setFinal ch) [] ch := by
+  refine ⟨hid, Nat.le_refl _, by simp [WS.setFinal], by simp [WS.setFinal, hid], by simp, by simp, by simp,
+    hb, ?_, ?_, by simp⟩
+  · intro q hq d hd
+    simp only [List.mem_singleton] at hq; subst hq
+    rcases hj with hj | hj
+    · exact .inl ⟨rfl, hj⟩
+    · rw [hj] at hd; cases hd
+  · intro a ha b hb' d _ _
+    simp only [List.mem_singleton] at ha hb'
+    rw [ha, hb']
+
+/-- a step whose builder is described by an `FO` exporting the new jump target `t` of the chunk -/
+theorem StepF.of_fo {p : Chunk} {st0 s1 st1 : WS} {nw : List Chunk} {t : Nat} {ret : Option Nat}
+    {stmts : List Stmt}
+    (f : FO st0 s1 nw [t]) (ht : Fresh st0.counter s1.counter t)
+    (hc : st1.counter = s1.counter) (hq : st1.queue = s1.queue)
+    (hf : st1.final = ({ id := p.id, returnID := ret, statements := stmts, branch := .jump t } : Chunk) ::
+      s1.final.filter (·.id != p.id))
+    (hstm : ∀ q ∈ nw, q.statements = [] ∨ ∃ pre x r, p.statements = pre ++ x :: r ∧
+      (q.statements = r ∨ (q.statements ∈ subBlocks x ∧ SBound st1 x q))) :
+    StepF p st0 st1 nw { id := p.id, returnID := ret, statements := stmts, branch := .jump t } := by
+  refine ⟨rfl, hc ▸ f.built.counter_le, hq.trans f.built.queue_eq, by rw [hf, f.built.final_eq],
+    hc ▸ f.built.ids, f.ret, f.back, by simp [jt], ?_, ?_, hstm⟩
+  · intro q hq' d hd
+    rw [hc]
+    simp only [List.mem_cons] at hq'
+    rcases hq' with rfl | hq'
+    · simp only [jt, Option.some.injEq] at hd; subst hd
+      exact .inr ht
+    · exact .inr (f.jtf q hq' d hd).1
+  · intro a ha b hb d hda hdb
+    simp only [List.mem_cons] at ha hb
+    rcases ha with rfl | ha <;> rcases hb with rfl | hb
+    · rfl
+    · simp only [jt, Option.some.injEq] at hda; subst hda
+      exact absurd (List.mem_singleton.2 rfl) (f.jtf b hb _ hdb).2
+    · simp only [jt, Option.some.injEq] at hdb; subst hdb
+      exact absurd (List.mem_singleton.2 rfl) (f.jtf a ha _ hda).2
+    · exact f.jti a ha b hb d hda hdb
+
+theorem sbound_nil {st1 : WS} {x : Stmt} {q : Chunk} (h1 : scopeB x = []) (h2 : scopeC x = []) :
+    SBound st1 x q := by
+  unfold SBound; rw [h1, h2]; simp
+
+/-- **every successful `processChunk` is a `StepF`**, for a queued chunk whose return id and
+`break` / `continue` targets were allocated before it -/
+theorem process_fu (p : Chunk) (st0 st1 : WS) (hp : processChunk p st0 = .ok st1)
+    (hidle : p.id ≤ st0.counter) (hret : ∀ r, p.returnID = some r → r < p.id)
+    (hback : jt p = none → ∀ d, tailId p = some d → d ≤ p.id) (hsc : ScopeB st0 p) :
+    ∃ nw ch, StepF p st0 st1 nw ch := by
+  have hret' : ∀ r, p.returnID = some r → r ≤ st0.counter := fun r hr => by have := hret r hr; omega
+  unfold processChunk at hp
+  generalize hscan : scanSimple p.statements 0 p.statements.length = scn at hp
+  obtain ⟨i, fin⟩ := scn
+  obtain ⟨pre, rest, hst, hsim, hi, hcase⟩ := scan_facts p i fin hscan
+  subst hi
+  simp only at hp
+  rcases hcase with ⟨rfl, hrest⟩ | ⟨c, rfl, rfl, hname⟩
+  · simp only at hp
+    rcases hrest with rfl | ⟨x, r, rfl, hx⟩
+    · have hlen : pre.length = p.statements.length := by rw [hst]; simp
+      rw [if_pos (by simp [hlen])] at hp
+      injection hp with hp; subst hp
+      exact ⟨[], p, StepF.simple p st0 p rfl hback (.inl rfl)⟩
+    · have hilt : pre.length < p.statements.length := by rw [hst]; simp
+      have hne : ¬ ((pre.length == p.statements.length) = true) := by simp; omega
+      have hget : p.statements[pre.length]? = some x := by rw [hst]; simp
+      have hdrop : p.statements.drop (pre.length + 1) = r := by rw [hst]; simp
+      rw [if_neg hne] at hp
+      simp only [hget] at hp
+      obtain ⟨be, ce, hwf, hbe, hce⟩ := hsc
+      rw [hst, WFL_append, wfl_cons] at hwf
+      have hwx : WFS x be ce := hwf.2.1
+      cases x with
+      | cmd c => exact absurd trivial hx
+      | label t n g => exact absurd trivial hx
+      | ite tok cond body elifs els =>
+        simp only at hp
+        split at hp
+        · cases hp
+        · rename_i s1 br ret hc
+          injection hp with hp; subst hp
+          obtain ⟨nw, entry, rfl, hentry, f, hs⟩ := createIf_fo tok _ _ _ _ _ _ _ _ _ _ hc hret'
+          refine ⟨nw, _, StepF.of_fo f hentry rfl rfl rfl ?_⟩
+          intro q hq
+          rcases hs q hq with h | h | h
+          · exact .inl h
+          · exact .inr ⟨pre, _, r, hst, .inl (h.trans hdrop)⟩
+          · exact .inr ⟨pre, _, r, hst, .inr ⟨h, sbound_nil rfl rfl⟩⟩
+      | while_ tok sid cond body =>
+        simp only at hp
+        split at hp
+        · cases hp
+        · rename_i s1 br ret contId hc
+          injection hp with hp; subst hp
+          obtain ⟨nw, t, rfl, ht, f, hs⟩ := createWhile_fo _ _ _ _ _ _ _ _ _ hc hret'
+          refine ⟨nw, _, StepF.of_fo f ht rfl rfl rfl ?_⟩
+          intro q hq
+          rcases hs q hq with h | h | ⟨h1, h2, h3⟩
+          · exact .inl h
+          · exact .inr ⟨pre, _, r, hst, .inl (h.trans hdrop)⟩
+          · refine .inr ⟨pre, _, r, hst, .inr ⟨by simp [subBlocks, h1], ?_, ?_⟩⟩
+            · intro s hs'
+              simp only [scopeB, List.mem_singleton] at hs'; subst hs'
+              exact ⟨ret, by simp [WS.setFinal], h2⟩
+            · intro s hs'
+              simp only [scopeC, List.mem_singleton] at hs'; subst hs'
+              exact ⟨contId, by simp [WS.setFinal], h3⟩
+      | doWhile tok sid cond body =>
+        simp only at hp
+        split at hp
+        · cases hp
+        · rename_i s1 br ret contId hc
+          injection hp with hp; subst hp
+          obtain ⟨nw, t, rfl, ht, f, hs⟩ := createDoWhile_fo _ _ _ _ _ _ _ _ _ hc hret'
+          refine ⟨nw, _, StepF.of_fo f ht rfl rfl rfl ?_⟩
+          intro q hq
+          rcases hs q hq with h | h | ⟨h1, h2, h3⟩
+          · exact .inl h
+          · exact .inr ⟨pre, _, r, hst, .inl (h.trans hdrop)⟩
+          · refine .inr ⟨pre, _, r, hst, .inr ⟨by simp [subBlocks, h1], ?_, ?_⟩⟩
+            · intro s hs'
+              simp only [scopeB, List.mem_singleton] at hs'; subst hs'
+              exact ⟨ret, by simp [WS.setFinal], h2⟩
+            · intro s hs'
+              simp only [scopeC, List.mem_singleton] at hs'; subst hs'
+              exact ⟨contId, by simp [WS.setFinal], h3⟩
+      | brk tok sid =>
+        simp only at hp
+        split at hp
+        · cases hp
+        · rename_i dest hl
+          injection hp with hp; subst hp
+          rw [keepStatementsAfterJump_eq]
+          obtain ⟨nw, f, _, hs⟩ := splitChunkForBranch_fo p pre.length st0 [] hret'
+          have hsid : sid ∈ be := hwx
+          obtain ⟨v, hv1, hv2⟩ := hbe sid hsid
+          rw [hl] at hv1
+          injection hv1 with hv1; subst hv1
+          refine ⟨nw, ({ id := p.id, returnID := p.returnID, statements := p.statements.take pre.length, branch := .breakCtx dest } : Chunk),
+            ⟨rfl, f.built.counter_le, f.built.queue_eq,
+            by simp [WS.setFinal, f.built.final_eq], f.built.ids, f.ret, f.back, ?_, ?_, ?_, ?_⟩⟩
+          · intro _ d hd
+            simp only [tailId] at hd
+            have := hv2 d hd
+            simp only; omega
+          · intro q hq d hd
+            simp only [List.mem_cons] at hq
+            rcases hq with rfl | hq
+            · simp [jt] at hd
+            · exact .inr (f.jtf q hq d hd).1
+          · intro a ha b hb d hda hdb
+            simp only [List.mem_cons] at ha hb
+            rcases ha with rfl | ha
+            · simp [jt] at hda
+            · rcases hb with rfl | hb
+              · simp [jt] at hdb
+              · exact f.jti a ha b hb d hda hdb
+          · intro q hq
+            exact .inr ⟨pre, _, r, hst, .inl ((hs q hq).1.trans hdrop)⟩
+      | cont tok sid =>
+        simp only at hp
+        split at hp
+        · cases hp
+        · rename_i dest hl
+          injection hp with hp; subst hp
+          rw [keepStatementsAfterJump_eq]
+          obtain ⟨nw, f, _, hs⟩ := splitChunkForBranch_fo p pre.length st0 [] hret'
+          have hsid : sid ∈ ce := hwx
+          obtain ⟨v, hv1, hv2⟩ := hce sid hsid
+          rw [hl] at hv1
+          injection hv1 with hv1; subst hv1
+          refine ⟨nw, ({ id := p.id, returnID := p.returnID, statements := p.statements.take pre.length, branch := .breakCtx (some dest) } : Chunk),
+            ⟨rfl, f.built.counter_le, f.built.queue_eq,
+            by simp [WS.setFinal, f.built.final_eq], f.built.ids, f.ret, f.back, ?_, ?_, ?_, ?_⟩⟩
+          · intro _ d hd
+            simp only [tailId, Option.some.injEq] at hd
+            subst hd
+            exact hv2
+          · intro q hq d hd
+            simp only [List.mem_cons] at hq
+            rcases hq with rfl | hq
+            · simp [jt] at hd
+            · exact .inr (f.jtf q hq d hd).1
+          · intro a ha b hb d hda hdb
+            simp only [List.mem_cons] at ha hb
+            rcases ha with rfl | ha
+            · simp [jt] at hda
+            · rcases hb with rfl | hb
+              · simp [jt] at hdb
+              · exact f.jti a ha b hb d hda hdb
+          · intro q hq
+            exact .inr ⟨pre, _, r, hst, .inl ((hs q hq).1.trans hdrop)⟩
+      | switch_ tok sid operand cases =>
+        simp only at hp
+        generalize hc : createSwitch operand cases p pre.length st0 = cs at hp
+        obtain ⟨s1, br, ret, swId⟩ := cs
+        simp only at hp
+        injection hp with hp; subst hp
+        obtain ⟨rfl, hsw, nw, f, hs⟩ := createSwitch_fo _ _ _ _ _ _ _ _ _ hc hret'
+        refine ⟨nw, _, StepF.of_fo f hsw rfl rfl rfl ?_⟩
+        intro q hq
+        rcases hs q hq with h | h | ⟨h1, h2, h3⟩
+        · exact .inl h
+        · exact .inr ⟨pre, _, r, hst, .inl (h.trans hdrop)⟩
+        · refine .inr ⟨pre, _, r, hst, .inr ⟨by simpa [subBlocks] using h1, ?_, ?_⟩⟩
+          · intro s hs'
+            simp only [scopeB, List.mem_singleton] at hs'; subst hs'
+            exact ⟨ret, by simp [WS.setFinal], h2⟩
+          · intro s hs'
+            simp [scopeC] at hs'
+  · simp only at hp
+    injection hp with hp; subst hp
+    exact ⟨[], _, StepF.simple p st0 _ rfl (by intro _ d hd; simp [tailId] at hd) (.inr rfl)⟩
+
+/-! ### the invariant of the run -/
+
+structure FInv (st : WS) : Prop where
+  ret : ∀ c ∈ st.queue, ∀ r, c.returnID = some r → r < c.id
+  back : ∀ c ∈ allC st, jt c = none → ∀ d, tailId c = some d → d ≤ c.id
+  jti : ∀ a ∈ allC st, ∀ b ∈ allC st, ∀ d, jt a = some d → jt b = some d → a.id = b.id
+  scope : ∀ c ∈ st.queue, ScopeB st c
+
+theorem ScopeB.ext {st st1 : WS} {c : Chunk} (h : ScopeB st c) (hext : Ext st st1) : ScopeB st1 c := by
+  obtain ⟨be, ce, h1, h2, h3⟩ := h
+  refine ⟨be, ce, h1, ?_, ?_⟩
+  · intro s hs
+    obtain ⟨v, hv1, hv2⟩ := h2 s hs
+    exact ⟨v, hext.brk s v hv1, hv2⟩
+  · intro s hs
+    obtain ⟨d, hd1, hd2⟩ := h3 s hs
+    exact ⟨d, hext.cont s d hd1, hd2⟩
+
+section step
+variable {st st1 : WS} {p : Chunk} {q : List Chunk} {nw : List Chunk} {ch : Chunk}
+
+theorem mem_all_stepF (hq : st.queue = p :: q) (so : StepF p { st with queue := q } st1 nw ch)
+    {c : Chunk} (hc : c ∈ allC st1) : c ∈ ch :: nw ∨ c ∈ allC st := by
+  unfold allC at hc ⊢
+  rw [so.final_eq, so.queue_eq] at hc
+  simp only [List.mem_append, List.mem_cons, List.mem_filter] at hc ⊢
+  rw [hq]
+  rcases hc with (rfl | ⟨h, _⟩) | h | h
+  · exact .inl (.inl rfl)
+  · exact .inr (.inl h)
+  · exact .inr (.inr (List.mem_cons_of_mem _ h))
+  · exact .inl (.inr h)
+
+theorem step_finv (tinv : TInv st) (finv : FInv st) (hq : st.queue = p :: q)
+    (hext : Ext st st1) (so : StepF p { st with queue := q } st1 nw ch) : FInv st1 := by
+  have hp : p ∈ allC st := by unfold allC; rw [hq]; simp
+  have hpq : p ∈ st.queue := by rw [hq]; simp
+  have hpid : p.id ≤ st.counter := tinv.idle p hp
+  -- jump-like tails of old chunks are old ids
+  have old_jt : ∀ c ∈ allC st, ∀ d, jt c = some d → d ≤ st.counter := by
+    intro c hc d hd
+    have := tinv.bnd c hc d (List.mem_append_left _ (tailId_mem_ncm (jt_eq_tailId hd)))
+    exact this.2
+  have fresh_gt : ∀ d, Fresh ({ st with queue := q } : WS).counter st1.counter d → st.counter < d :=
+    fun d hd => hd.1
+  refine ⟨?_, ?_, ?_, ?_⟩
+  · intro c hc
+    rw [so.queue_eq] at hc
+    rcases List.mem_append.1 hc with hc | hc
+    · exact finv.ret c (by rw [hq]; simp [hc])
+    · exact so.nw_ret c hc
+  · intro c hc hj d hd
+    rcases mem_all_stepF hq so hc with h | h
+    · simp only [List.mem_cons] at h
+      rcases h with rfl | h
+      · exact so.ch_back hj d hd
+      · have := so.nw_back c h hj d hd; omega
+    · exact finv.back c h hj d hd
+  · intro a ha b hb d hda hdb
+    rcases mem_all_stepF hq so ha with ha' | ha' <;> rcases mem_all_stepF hq so hb with hb' | hb'
+    · exact so.jti a ha' b hb' d hda hdb
+    · rcases so.jtf a ha' d hda with ⟨e1, e2⟩ | hf
+      · rw [e1, e2]
+        rw [e1, e2] at hda
+        exact finv.jti p hp b hb' d hda hdb
+      · have := old_jt b hb' d hdb
+        have := fresh_gt d hf
+        omega
+    · rcases so.jtf b hb' d hdb with ⟨e1, e2⟩ | hf
+      · rw [e1, e2]
+        rw [e1, e2] at hdb
+        exact finv.jti a ha' p hp d hda hdb
+      · have := old_jt a ha' d hda
+        have := fresh_gt d hf
+        omega
+    · exact finv.jti a ha' b hb' d hda hdb
+  · intro c hc
+    rw [so.queue_eq] at hc
+    rcases List.mem_append.1 hc with hc | hc
+    · exact (finv.scope c (by rw [hq]; simp [hc])).ext hext
+    · obtain ⟨be, ce, h1, h2, h3⟩ := finv.scope p hpq
+      have hcid : st.counter < c.id := (so.nw_ids c hc).1
+      -- the scopes of `p`, seen from the new chunk
+      have hbe : ∀ s ∈ be, ∃ v, st1.brk.lookup s = some v ∧ ∀ r, v = some r → r < c.id := by
+        intro s hs
+        obtain ⟨v, hv1, hv2⟩ := h2 s hs
+        exact ⟨v, hext.brk s v hv1, fun r hr => by have := hv2 r hr; omega⟩
+      have hce : ∀ s ∈ ce, ∃ d, st1.cont.lookup s = some d ∧ d ≤ c.id := by
+        intro s hs
+        obtain ⟨d, hd1, hd2⟩ := h3 s hs
+        exact ⟨d, hext.cont s d hd1, by omega⟩
+      rcases so.stm c hc with he | ⟨pre, x, r, hst, hr⟩
+      · exact ⟨[], [], by rw [he]; trivial, by simp, by simp⟩
+      · rw [hst, WFL_append, wfl_cons] at h1
+        rcases hr with hr | ⟨hr, hb1, hb2⟩
+        · exact ⟨be, ce, by rw [hr]; exact h1.2.2, hbe, hce⟩
+        · refine ⟨scopeB x ++ be, scopeC x ++ ce, WFS_sub x be ce h1.2.1 _ hr, ?_, ?_⟩
+          · intro s hs
+            rcases List.mem_append.1 hs with hs | hs
+            · exact hb1 s hs
+            · exact hbe s hs
+          · intro s hs
+            rcases List.mem_append.1 hs with hs | hs
+            · exact hb2 s hs
+            · exact hce s hs
+end step
+
+theorem finv_init (body : List Stmt) (hw : ScopesWellFormed body) : FInv (initWS body) := by
+  refine ⟨?_, ?_, ?_, ?_⟩
+  · intro c hc r hr
+    simp only [initWS, List.mem_singleton] at hc; subst hc; simp at hr
+  · intro c hc _ d hd
+    simp [allC, initWS] at hc; subst hc; simp [tailId] at hd
+  · intro a ha b hb d hda
+    simp [allC, initWS] at ha; subst ha; simp [jt] at hda
+  · intro c hc
+    simp only [initWS, List.mem_singleton] at hc; subst hc
+    exact ⟨[], [], hw, by simp, by simp⟩
+
+theorem run_finv : ∀ (f : Nat) (st st' : WS), runWorklist f st = .ok st' → Inv st → TInv st → FInv st →
+    FInv st' ∧ st'.queue = [] := by
+  intro f
+  induction f with
+  | zero => intro st st' h; simp [runWorklist] at h
+  | succ f ih =>
+    intro st st' h hinv tinv finv
+    rw [runWorklist_succ] at h
+    cases hq : st.queue with
+    | nil =>
+      simp only [hq] at h
+      injection h with h; subst h
+      exact ⟨finv, hq⟩
+    | cons p q =>
+      simp only [hq] at h
+      cases hp : processChunk p { st with queue := q } with
+      | error e => simp [hp] at h
+      | ok st1 =>
+        simp only [hp] at h
+        have hpq : p ∈ st.queue := by rw [hq]; simp
+        have hpa : p ∈ allC st := by unfold allC; rw [hq]; simp
+        have hqok : QOK p := hinv.qok p hpq
+        obtain ⟨nw, ch, sc, so⟩ := process_spec p _ st1 hqok hp
+        obtain ⟨nw2, ch2, sc2⟩ := process_tf p _ st1 hp
+        obtain ⟨nw3, ch3, sf⟩ := process_fu p _ st1 hp (tinv.idle p hpa) (finv.ret p hpq)
+          (finv.back p hpa) (finv.scope p hpq)
+        exact ih st1 st' h (step_inv hinv hq so) (step_tinv tinv hq sc2)
+          (step_finv tinv finv hq (step_ext hinv hq so) sf)
+
+/-- Forward tail edges of the chunk table are unique: two chunks whose `tailId` is the same chunk
+`d` with a larger id than both are the same chunk. -/
+def FwdUnique (G : List Chunk) : Prop :=
+  ∀ a ∈ G, ∀ b ∈ G, ∀ d, tailId a = some d → tailId b = some d → a.id < d → b.id < d → a.id = b.id
+
+/-- **Forward tail edges are unique** in the chunk table of a script with well-scoped `break` /
+`continue` statements and pairwise distinct scope ids. -/
+theorem scriptChunks_fwdUnique (body : List Stmt) (chunks : List Chunk) (hs : ScopeIdsDistinct body)
+    (hw : ScopesWellFormed body) (h : scriptChunks body = .ok chunks) : FwdUnique chunks := by
+  unfold scriptChunks at h
+  split at h
+  · cases h
+  · rename_i st hrun
+    injection h with h; subst h
+    obtain ⟨finv, hq⟩ := run_finv _ (initWS body) st hrun (inv_init body hs) (tinv_init body)
+      (finv_init body hw)
+    have hall : ∀ x, x ∈ st.final → x ∈ allC st := fun x hx => by simp [allC, hq, hx]
+    have key : ∀ a ∈ st.final, ∀ d, tailId a = some d → a.id < d → jt a = some d := by
+      intro a ha d hd hlt
+      cases hj : jt a with
+      | none => have := finv.back a (hall a ha) hj d hd; omega
+      | some d' =>
+        have := jt_eq_tailId hj
+        rw [hd] at this
+        injection this with this
+        rw [this]
+    intro a ha b hb d hda hdb hla hlb
+    exact finv.jti a (hall a ha) b (hall b hb) d (key a ha d hda hla) (key b hb d hdb hlb)
+
+#print axioms scriptChunks_fwdUnique
+
 end Pory.Emit
